@@ -1361,11 +1361,25 @@ class Controller:
         '''
         See Bluetooth spec Vol 4, Part E - 7.1.6 Disconnect Command
         '''
+        handle = command.connection_handle
+        if not (
+            self.find_connection_by_handle(handle)
+            or self.find_classic_sco_link_by_handle(handle)
+            or (
+                (iso_link := self.find_iso_link_by_handle(handle))
+                and iso_link.acl_connection
+            )
+        ):
+            # There is nothing to disconnect: no Disconnection Complete would follow
+            self._send_hci_command_status(
+                hci.HCI_ErrorCode.UNKNOWN_CONNECTION_IDENTIFIER_ERROR, command.op_code
+            )
+            return None
+
         # First, say that the disconnection is pending
         self._send_hci_command_status(hci.HCI_COMMAND_STATUS_PENDING, command.op_code)
 
         # Notify the link of the disconnection
-        handle = command.connection_handle
         if connection := self.find_classic_connection_by_handle(handle):
             if self.link:
                 self.send_lmp_packet(
